@@ -1,4 +1,14 @@
 import Glas.Props.C10
+import Glas.Props.C10Collect
 #print axioms Glas.Props.C10.parser_no_precondition_panic
 #print axioms Glas.Props.C10.parser_terminates
 #print axioms Glas.Props.C10.parse_total
+#print axioms Glas.Props.C10Collect.collect_ok
+#print axioms Glas.Props.C10Collect.collect_total
+#print axioms Glas.Props.C10Collect.collect_caches
+#print axioms Glas.Props.C10Collect.collect_again
+#print axioms Glas.Props.C10Collect.collect_same_class
+#print axioms Glas.Props.C10Collect.collectAll_total
+#print axioms Glas.Props.C10Collect.cyclic_wf
+#print axioms Glas.Props.C10Collect.cyclic_closed
+#print axioms Glas.Props.C10Collect.order_matters
